@@ -100,6 +100,10 @@ ObsSpool(o, when, pending, broken) ==
 \* shut down; what was handed out, dispatched and given a terminal outcome stays as it is, so
 \* "exactly once" and "not before its time" are judged across the restart
 \* pid = post_init_delay: nothing that is pending is attempted before start-up + pid
+\* A run may shut down and restart several times (CloseCall/CloseReturn/Restart repeat).  What else lies in
+\* the spool directory at a start (ID.meta.new of a dead incarnation, backup copies, half-removed or
+\* half-stored messages: Cfg.left, planted by the harness) is not an event: none of it is a committed
+\* message without outcome, so the obligations below are the same with and without it.
 ObsRestart(o, now, pid) ==
   [o EXCEPT !.closeSt = "no", !.spoolC = << >>, !.calling = << >>,
             !.due = [e \in DOMAIN o.due |-> IF o.disp[e] = 0 /\ o.due[e] < now + pid THEN now + pid ELSE o.due[e]]]
